@@ -8,6 +8,7 @@ from .. import paths
 from ..core import FUNC, call_attr, calls_in, const, dotted, is_const, kwarg, norm, text, walk_local
 
 EXPLANATION = [
+    'C12.included-first: Server.add_service registers unregistered included services before it adds its own service declaration; add_services skips services already registered.',
     'C12.space-after-match: in on_att_find_by_type_value_request the response room is decremented only after attributes.append(...) in the same block (consumed by reported entries, not by examined candidates).',
     'C12.copy-update: in the GATT modules no container looked up in a table is replaced by a rebuilt copy bound to the local only (`subs = subs - {s}`): the table keeps the old object and the unsubscribe is lost.',
     'C12.subscribe-order: Client.subscribe registers the subscriber (setdefault / add on the subscriber tables) before the awaited CCCD write on every path.',
@@ -781,7 +782,36 @@ def space_after_match(ctx):
         R.check(ok, rule, f'{SRV}.on_att_find_by_type_value_request | {norm(d)}', 'after attributes.append(...) in the same block', 'response room is consumed for a candidate that may not be reported: after (ATT_MTU-1)/4 attributes of the requested type that do not match, the search stops and a matching service further on is never found (discover_service returns nothing)', p.loc(d))
 
 
+def included_first(ctx):
+    """Services occupy disjoint handle ranges: Server.add_service registers a not yet registered included service before it
+    adds its own service declaration (no recursive add_service once the declaration is in), and add_services does not add a
+    service that is already registered."""
+    R, p = ctx.r, ctx.p
+    rule = 'C12.included-first'
+    fn = p.find(f'{SRV}.add_service')
+    fs = p.find(f'{SRV}.add_services')
+    if fn is None or fs is None:
+        R.bad(rule, f'{SRV}.add_service / add_services', 'anchor missing')
+        return
+    late = []
+
+    class D(paths.Domain):
+        def event(self, node, v):
+            if isinstance(node, ast.Call) and dotted(node.func) == 'self.add_attribute' and node.args and norm(node.args[0]) == 'service':
+                return (True,)
+            if isinstance(node, ast.Call) and dotted(node.func) == 'self.add_service' and v:
+                late.append(node)
+            return (v,)
+    paths.run(fn, D(), False)
+    decl = [c for c in calls_in(fn) if dotted(c.func) == 'self.add_attribute' and c.args and norm(c.args[0]) == 'service']
+    R.check(len(decl) == 1 and not late, rule, f'{SRV}.add_service', 'included services are registered before the service declaration is added', 'an included service is registered after the including service\'s declaration is in the database: its attributes lie inside the including service\'s handle range - discovery never reports it as a service of its own and attributes its characteristics to the including service', p.loc(late[0]) if late else p.loc(fn))
+    adds = [c for c in calls_in(fs) if dotted(c.func) == 'self.add_service']
+    ok = bool(adds) and all(any('self.services' in norm(t) and ((' not in ' in norm(t)) == pol) for t, pol in paths.flat_guards(c, stop=fs)) for c in adds)
+    R.check(ok, rule, f'{SRV}.add_services', 'skips services that are already registered', 'add_services registers a service again that was already registered as an included service: its attributes exist twice', p.loc(fs))
+
+
 RULES = [
+    ('C12.included-first', included_first),
     ('C12.space-after-match', space_after_match),
     ('C12.copy-update', copy_update_rule),
     ('C12.subscribe-order', subscribe_order),
